@@ -33,6 +33,9 @@ ObsInit == [call |-> EmptyFun, sub |-> EmptyFun,
             ended |-> {},            \* server connections whose ServeHTTP returned
             closerStart |-> {}, closerEnd |-> {},
             dialsAfterClose |-> 0, dials |-> 0, srvCancels |-> {},
+            scName |-> "",           \* name of the scenario (from the reset event)
+            crashed |-> FALSE,       \* the process hosting the code under test died
+            ctxMissing |-> {},       \* calls whose handler waited in vain for its context to be cancelled
             cfgErrors |-> FALSE, cfgNoReconnect |-> FALSE, cfgHooks |-> FALSE,   \* client configuration of the scenario (from the reset event)
             backoffSeen |-> FALSE,   \* a backoff delay was computed since the last dial
             badBackoff |-> 0,        \* redials not preceded by their own backoff delay, or with a delay outside [min, max] / below the schedule
@@ -93,6 +96,8 @@ ObsStep(o, e) ==
            [] e.kind = "chval" /\ e.dir = "s2c" ->
                 IF <<e.conn, e.chid>> \in o1.chanResp THEN o1 ELSE [o1 EXCEPT !.valBeforeResp = @ + 1]
            [] OTHER -> o1
+    [] e.ev = "ProcessExit" -> [o EXCEPT !.crashed = TRUE]
+    [] e.ev = "CtxMissing"  -> [o EXCEPT !.ctxMissing = @ \cup {e.call}]
     [] e.ev = "WireFault"  -> [o EXCEPT !.faults = @ + 1, !.faultAfterUp = TRUE]
     [] e.ev = "ConnEnded"  -> [o EXCEPT !.ended = @ \cup {e.srvconn}]
     [] e.ev = "SrvCancel"  -> [o EXCEPT !.srvCancels = @ \cup {e.srvconn}]
@@ -166,7 +171,13 @@ Always_C05b(o) ==
   {<<"C05", "call-failed-with-non-connection-error:" \o o.call[t].outcome, t>> :
      t \in {t \in Calls(o) : o.call[t].outcome \in {"other", "proto"} /\ o.call[t].tr = "ws" /\ o.faults > 0 /\ ~o.call[t].cancelReq}}
 
-Always(o) == Always_C05(o) \cup Always_C05b(o) \cup Always_C02(o) \cup Always_C04(o) \cup Always_C06(o) \cup Always_C07(o) \cup Always_C08(o) \cup Always_C14(o) \cup Always_C18(o)
+\* a crash of the hosting process violates every property whose check ran the scenario
+CrashProps == {"C02", "C03", "C04", "C05", "C06", "C07", "C08", "C10", "C13", "C14", "C15", "C16", "C17", "C18"}
+Always_Crash(o) == IF o.crashed THEN {<<p, "process-crashed", 0>> : p \in CrashProps} ELSE {}
+\* C06: a cancellation (or the end of the connection) that should have reached a handler never did
+Always_C06b(o) == {<<"C06", "cancellation-never-reached-the-handler", t>> : t \in o.ctxMissing}
+
+Always(o) == Always_Crash(o) \cup Always_C06b(o) \cup Always_C05(o) \cup Always_C05b(o) \cup Always_C02(o) \cup Always_C04(o) \cup Always_C06(o) \cup Always_C07(o) \cup Always_C08(o) \cup Always_C14(o) \cup Always_C18(o)
 
 \* at quiescence q (a Quiesce event): nothing may be outstanding
 Quiet(o, q) ==
@@ -180,11 +191,24 @@ Quiet(o, q) ==
   \* C05: a retry-tagged call rides out the outage and returns what a handler produced
   \cup {<<"C05", "retry-call-surfaced-" \o o.call[t].outcome, t>> :
           t \in {t \in Calls(o) : o.call[t].kind = "retry" /\ o.call[t].ends >= 1 /\ o.call[t].outcome \notin {"ok", "herr"}
+                                  /\ o.call[t].tr = "ws" /\ ~o.call[t].cancelReq
                                   /\ ~o.cfgNoReconnect /\ o.serverUp /\ o.closerStart = {} /\ q.probe = "ok"}}
   \cup {<<"C04", "notification-not-executed-exactly-once", t>> :
           t \in {t \in Calls(o) : o.call[t].kind = "notify" /\ o.faults = 0 /\ o.closerStart = {} /\ o.call[t].ends = 1 /\ o.call[t].outcome = "ok" /\ o.call[t].execs # 1}}
+  \* C07: a subscriber that stops reading blocks neither other subscriptions nor ordinary calls
+  \cup {<<"C07", "blocked-behind-a-stalled-subscriber", t>> : t \in IF "stalled" \in DOMAIN q /\ Len(q.stalled) > 0 THEN W ELSE {}}
+  \* C18: the closer returns, nothing stays blocked, later calls fail promptly
+  \cup (IF "closerReturned" \in DOMAIN q /\ ~q.closerReturned THEN {<<"C18", "closer-did-not-return", 0>>} ELSE {})
+  \cup (IF "late" \in DOMAIN q /\ q.late \in {"ok", "pending"} THEN {<<"C18", "call-after-close-" \o q.late, 0>>} ELSE {})
+  \cup {<<"C18", "call-still-blocked-after-close", t>> : t \in IF o.closerEnd # {} THEN W ELSE {}}
+  \* C18: closing an HTTP / custom-transport client does not disturb calls in progress
+  \cup {<<"C18", "http-or-custom-call-disturbed-by-close:" \o Call(o, t).outcome, t>> :
+          t \in IF "inprogress" \in DOMAIN q THEN {x \in {q.inprogress[i] : i \in DOMAIN q.inprogress} : Call(o, x).outcome # "ok"} ELSE {}}
+  \cup {<<"C18", "channel-not-closed-after-close", t>> :
+          t \in {t \in Calls(o) : o.closerEnd # {} /\ o.call[t].kind = "sub" /\ o.call[t].outcome = "ok" /\ o.call[t].haschan /\ Sub(o, t).closed = 0
+                                  /\ "expectClosed" \in DOMAIN q /\ t \in {q.expectClosed[i] : i \in DOMAIN q.expectClosed}}}
   \cup {<<"C07", "stream-incomplete-on-healthy-link", t>> :
-          t \in {t \in Subs(o) : o.sub[t].hclosed /\ o.faults = 0 /\ o.closerStart = {} /\ ~Call(o, t).cancelReq /\ o.ended = {}
+          t \in {t \in Subs(o) : o.sub[t].hclosed /\ o.faults = 0 /\ ~("stalled" \in DOMAIN q /\ t \in {q.stalled[i] : i \in DOMAIN q.stalled}) /\ o.closerStart = {} /\ ~Call(o, t).cancelReq /\ o.ended = {}
                                  /\ Call(o, t).outcome = "ok" /\ (o.sub[t].recv # o.sub[t].sentAtHClose \/ o.sub[t].closed # 1)}}
   \cup {<<"C08", "channel-never-closed", t>> :
           t \in {t \in Calls(o) : o.call[t].kind = "sub" /\ o.call[t].outcome = "ok" /\ o.call[t].haschan /\ Sub(o, t).closed = 0
